@@ -138,6 +138,7 @@ func init() {
 		c07Variants(w, wc, r)
 		c07Diagnostics(w, r)
 		c07DependenciesFirst(w, wc, r)
+		wireBracketBalance(w, wc, r, "C07", map[string]bool{"code": true, "test": true})
 		wireTemplateTaint(w, wc, r, "C07", []string{"go", "rust", "java", "python", "cpp", "lua"})
 		wireAssumptions(r)
 	})
@@ -148,6 +149,7 @@ func init() {
 		c17Coverage(w, wc, r)
 		c17CopyBack(w, wc, r)
 		c17StickyState(w, wc, r)
+		wireBracketBalance(w, wc, r, "C17", map[string]bool{"test": true})
 		c17FloatSamples(w, r)
 		wireAssumptions(r)
 	})
